@@ -163,6 +163,7 @@ type Result struct {
 	Subs        [][2]string `json:"subs,omitempty"` // sub-ranges received by the handler, call order
 	Locks       []string    `json:"locks_after,omitempty"`
 	Reads       []Read      `json:"reads,omitempty"`
+	Late        []Read      `json:"late,omitempty"` // late prewrite probes of rolled-back (key, start): refused | accepted
 	ReadsBefore []Read      `json:"reads_before,omitempty"`
 	Vis         []Read      `json:"vis,omitempty"`
 	Layout0     []string    `json:"layout0"`
@@ -786,6 +787,33 @@ func runCase(c *Case) *Result {
 					rd.Res = "V" + hex.EncodeToString(e.Value)
 				}
 				res.Reads = append(res.Reads, rd)
+			}
+		}
+		// rollback markers: a late prewrite of a (key, start ts) the pass rolled back must be refused
+		if res.Err == "" {
+			n := 0
+			for i, r0 := range res.Pre {
+				l := r0.Lock
+				if l == nil || l.Kind == "pess" || l.Start > c.SP || n >= 3 || res.Post[i].Lock != nil {
+					continue
+				}
+				committed := false
+				for _, wr := range res.Post[i].Writes {
+					if wr.Start == l.Start && wr.Kind != "rollback" {
+						committed = true
+					}
+				}
+				if committed {
+					continue
+				}
+				n++
+				errs := w.rpc.MvccStore.Prewrite(&kvrpcpb.PrewriteRequest{Mutations: []*kvrpcpb.Mutation{{Op: kvrpcpb.Op_Put, Key: unhx(r0.Key), Value: []byte("late")}},
+					PrimaryLock: unhx(l.Primary), StartVersion: l.Start, LockTtl: 3000})
+				rd := Read{Key: r0.Key, TS: l.Start, Res: "accepted"}
+				if e := firstErr(errs); e != nil {
+					rd.Res = "refused"
+				}
+				res.Late = append(res.Late, rd)
 			}
 		}
 	case "part":
